@@ -6,7 +6,7 @@ rename database files (T5).  Not decided: the file-system model itself.
 """
 from ..program import const_val, key, show, strip_casts
 from ..paths import xgraph
-from ..rules import (cmp_edge, must_cross_edge_before, BAD, argkey, always_before, call_ok_dominates, check_automaton, check_guard,
+from ..rules import (cmp_edge, must_cross_edge_before, BAD, DEAD, argkey, always_before, call_ok_dominates, check_automaton, check_guard,
                      find_calls, holds, is_call, must_pass_before_success, not_under_edges, one_call,
                      ordered_before_success, site, stores_of_field_in_program, truth_of, fmt_atoms, CALL)
 from . import c17
@@ -202,6 +202,53 @@ def check_env(ctx):
     ok = any(key(e["lhs"]) == "file->manifest" and "ldb_is_manifest" in key(e["rhs"]) for b, i, e in ini.events("asg"))
     ctx.check(ok, "T6-env-manifest-flag", "is_manifest", ini.name, ini.loc,
               "file->manifest = ldb_is_manifest(filename)", "file->manifest no longer derives from the file name")
+
+
+def check_env_read(ctx):
+    """The full-read loops of the POSIX env: a failed read(2) is an error even
+    after earlier calls delivered data; a short read is continued (only a
+    0-byte read is the end of the file - the log reader takes a short block for
+    the end of the log); the cursor advances by what read(2) reported."""
+    from ..rules import returned_after, sequences_under, rel_edge
+    for fname, call in (("ldb_read", "read"), ("ldb_pread", "pread")):
+        if not ctx.P.has_fn(fname):
+            continue
+        f = ctx.fn(fname, ENV)
+        rd = [(b, i, e) for (b, i, e) in f.events("asg") if isinstance(strip_casts(e["rhs"]), dict) and strip_casts(e["rhs"]).get("k") == "call"
+              and strip_casts(e["rhs"]).get("f") == call]
+        ctx.require(len(rd) == 1, "%s: %s(2) call not found" % (fname, call))
+        res = key(rd[0][2]["lhs"])
+        def step(q, e, st, b, i, res=res):
+            if q == BAD or q == DEAD:
+                return q
+            if e["e"] == "asg" and key(e["lhs"]) == res:
+                return 0                      # a new attempt: the earlier failure was retried (EINTR)
+            if e["e"] == "ret" and q == 1 and const_val(e.get("x")) != -1:
+                return BAD
+            return q
+
+        def edge(q, lit, res=res):
+            if lit is None or lit[0] in ("case", "default") or q == BAD:
+                return q
+            if q == 0 and rel_edge(lit[0], lit[1], "<", res, 0):
+                return 1
+            if q == 1 and rel_edge(lit[0], lit[1], ">=", res, 0):
+                return DEAD                   # contradicts the failure this path carries
+            return q
+        check_automaton(ctx, "T1-env-read", fname + ":error-is-error", f, 0, step, edge,
+                        "a failed %s(2) that is not retried makes the whole read fail, whatever was read before" % call)
+        tok = lambda e: "call" if (e["e"] == "call" and e.get("f") == call) else ("ret" if e["e"] == "ret" else None)
+        outcomes = {}
+        for name, env in (("short read", {res: 5, "len": 10, "max": 100}), ("end of file", {res: 0, "len": 10, "max": 100})):
+            seqs = sequences_under(f, tok, lambda t, env=env: env.get(key(t)), start=lambda e: e is rd[0][2])
+            outcomes[name] = {("again" if ("call" in x or "<loop>" in x) else "stop") for x in seqs}
+        ctx.check(outcomes == {"short read": {"again"}, "end of file": {"stop"}}, "T1-env-read", fname + ":short-read-continues", f.name, f.loc,
+                  "a short read is continued; only a 0-byte read ends the loop",
+                  "read loop continuation: %s" % {k2: sorted(v) for k2, v in sorted(outcomes.items())})
+        adv = sorted((key(e["lhs"]), e["op"], key(e["rhs"])) for b, i, e in f.events("asg") if e["op"] in ("+=", "-="))
+        want = [("buf", "+=", res), ("cnt", "+=", res), ("len", "-=", res)] + ([("off", "+=", res)] if fname == "ldb_pread" else [])
+        ctx.check(adv == sorted(want), "T1-env-read", fname + ":advance-by-result", f.name, f.loc,
+                  "buffer, remaining length and count advance by the result of %s(2)" % call, "the read loop advances by %s" % adv)
 
 
 def check_tables(ctx):
@@ -420,6 +467,7 @@ def _gt_zero(c, p, k):
 
 
 def check(ctx):
+    check_env_read(ctx)
     check_write(ctx)
     check_group(ctx)
     check_env(ctx)
